@@ -83,6 +83,14 @@ func c01Gen(rt *rapid.T) sPlan {
 			sb.Tasks = append(sb.Tasks, sTask{ID: "again-" + t0.ID, File: "again", Payload: t0.Payload})
 		}
 		sb.Signers = genSubset(rt, p.N, p.T, "signers")
+		if rapid.IntRange(0, 3).Draw(rt, "faulty") == 0 {
+			// one or two of the signers deliver unusable shares; whatever is reconstructed nevertheless must verify
+			nf := rapid.IntRange(1, 2).Draw(rt, "nfaulty")
+			for k := 0; k < nf && k < len(sb.Signers); k++ {
+				sb.Faulty = append(sb.Faulty, sFault{Who: sb.Signers[rapid.IntRange(0, len(sb.Signers)-1).Draw(rt, "who")],
+					Kind: rapid.SampledFrom([]string{"junk", "flip", "swapped", "index", "empty"}).Draw(rt, "faultKind")})
+			}
+		}
 		sb.Tape = rapid.SliceOfN(rapid.IntRange(0, 1000), 0, 30).Draw(rt, "tape")
 		p.Batches = append(p.Batches, sb)
 	}
@@ -216,6 +224,11 @@ func c01Run(t *testing.T, st *vstat.Stats, p sPlan) (v *viol) {
 	}
 	if subset {
 		st.Class("signers<n")
+	}
+	for _, b := range p.Batches {
+		for _, f := range b.Faulty {
+			st.Class("faulty-shares:" + f.Kind)
+		}
 	}
 	if recon > 0 && (subset || order) {
 		st.NonTrivial(fmt.Sprintf("%d/%d/%v/%v/%v", p.N, p.T, signerSets(p), tapes(p), shapes))
